@@ -19,7 +19,10 @@ func init() {
 func C05_Jobs() []string {
 	var out []string
 	for _, j := range shapeJobs() {
-		_, _, _, d := split3(j)
+		_, _, variant, d := split3(j)
+		if variant == "stest" {
+			continue // a struct-level test that reads the catching field legitimately sees the catch value
+		}
 		if jobDeco(d)&dCatch != 0 {
 			out = append(out, j)
 		}
